@@ -169,9 +169,9 @@ def inStringGrammar (j : Json) : Bool := (violation false j).isNone
 /-! ## the regions in which the implementation is known to accept documents outside the grammar
 
 (stated here so that the refusal theorem can name them; each has a counterexample in
-`S3V/Findings/C20Policy.lean` and an open finding. Two further regions — a statement with more than one
-principal / action / resource block, and a principal block with a malformed value — were repaired in the
-code and are no longer excluded.) -/
+`S3V/Findings/C20Policy.lean` and an open finding. Three further regions — a statement with more than one
+principal / action / resource block, a principal block with a malformed value, and the document written
+as an array — were repaired in the code and are no longer excluded.) -/
 
 /-- `{"<name>": null}` where the grammar wants the string `"<name>"` -/
 def enumObjectForm : Json → Bool
@@ -186,9 +186,8 @@ def stmtsQuirk : Json → Bool
   | .arr items => items.any stmtQuirk
   | j => stmtQuirk j
 
-/-- the document is an array, or writes `Version`/`Effect` in object form -/
+/-- the document writes `Version`/`Effect` in object form -/
 def quirk : Json → Bool
-  | .arr _ => true
   | .obj ms => (valuesOf kVersion ms).any enumObjectForm || (valuesOf kStatement ms).any stmtsQuirk
   | _ => false
 
@@ -198,11 +197,9 @@ def stmtItems : Json → List Json
   | .arr items => items
   | j => [j]
 
-/-- the JSON values standing where the grammar has a statement (in the object form of the document,
-    and in the three-element array form the implementation also reads) -/
+/-- the JSON values standing where the grammar has a statement -/
 def statementNodes : Json → List Json
   | .obj ms => (valuesOf kStatement ms).flatMap stmtItems
-  | .arr [_, _, v] => stmtItems v
   | _ => []
 
 /-- the statement is an object; each of the six blocks occurs at most once (`Sid`, `Effect`, `Condition`
@@ -231,7 +228,7 @@ def stmtMust : Json → Bool
     (membersOf2 kPrincipal kNotPrincipal ms).all (fun kv => principalValueOk kv.2)
   | _ => false
 
-/-- `Version`, `Id`, `Statement` occur at most once; every `Version`/`Id` of an object-form document is
+/-- the document is an object; `Version`, `Id`, `Statement` occur at most once; every `Version`/`Id` is
     null or a known version / a string, and there is a `Statement` -/
 def headMust : Json → Bool
   | .obj ms =>
@@ -240,7 +237,6 @@ def headMust : Json → Bool
     (valuesOf kVersion ms).all (fun v => (versionValueViol v).isNone || enumObjectForm v) &&
     (valuesOf kId ms).all (fun v => (optStringValueViol .idShape v).isNone) &&
     !(valuesOf kStatement ms).isEmpty
-  | .arr _ => true
   | _ => false
 
 /-! ## "as written" -/
